@@ -19,7 +19,7 @@ Record udecl := mkudecl {
 (** after an argument: a comma, or the end of the list *)
 Definition eat_comma (ts : list tok) : option (list tok) :=
   match ts with
-  | TPunct 44%N :: r => Some r
+  | TPunct c :: r => if (c =? 44)%N then Some r else None
   | [] => Some []
   | _ => None
   end.
@@ -27,8 +27,8 @@ Definition eat_comma (ts : list tok) : option (list tok) :=
 (** UnitDef::parse: ident , "symbol" [, PREFIX] [, scale literal] [, "doc"] *)
 Definition parse_unit_args (ts : list tok) : option udecl :=
   match ts with
-  | TIdent id :: TPunct 44%N :: TStr sym :: r0 =>
-      match eat_comma r0 with
+  | TIdent id :: TPunct c0 :: TStr sym :: r0 =>
+      match (if (c0 =? 44)%N then eat_comma r0 else None) with
       | None => None
       | Some r1 =>
           let pr := match r1 with
@@ -81,16 +81,17 @@ Record analysed := mkanalysed {
   an_ref : option ustring           (* variant identifier of the reference unit *)
 }.
 
+Fixpoint parse_all (l : list raw_attr) : option (list udecl) :=
+  match l with
+  | [] => Some []
+  | a :: r => match parse_unit_args (ra_args a), parse_all r with Some u, Some us => Some (u :: us) | _, _ => None end
+  end.
+
 (** analyze(): None = the definition is rejected *)
 Definition analyze (d : raw_def) : option analysed :=
   let attrs := List.filter (fun a => match ra_kind a with AOtherAttr => false | _ => true end) (rd_attrs d) in
   let refs := List.filter (fun a => match ra_kind a with ARefUnit => true | _ => false end) attrs in
   let units := List.filter (fun a => match ra_kind a with AUnit => true | _ => false end) attrs in
-  let parse_all := fix go (l : list raw_attr) : option (list udecl) :=
-    match l with
-    | [] => Some []
-    | a :: r => match parse_unit_args (ra_args a), go r with Some u, Some us => Some (u :: us) | _, _ => None end
-    end in
   match refs with
   | [] =>
       match parse_all units with
@@ -101,6 +102,7 @@ Definition analyze (d : raw_def) : option analysed :=
       end
   | [ra] =>
       match parse_unit_args (ra_args ra), parse_all units with
+      | _, Some [] => None          (* get_unit_attrs: at least one #[unit] is required, also beside a #[ref_unit] *)
       | Some r, Some us =>
           match ud_scale r with
           | Some _ => None
@@ -125,3 +127,13 @@ Definition expected_path (a : analysed) : gen_path :=
 
 Definition prefix_of_ident (s : ustring) : option SIPrefix :=
   List.find (fun p => ustr_eqb (SIPrefix_ident p) s) SIPrefix_variants.
+
+(** * the whole front end: parse_item / check_struct / analyze / parse_args.
+      true = the definition is accepted (code is generated), false = the macro aborts *)
+From QV Require Import Macro.Impls.
+Definition validate (d : raw_def) : bool :=
+  match rd_kind d with IStruct => true | _ => false end      (* parse_item: the item must parse as a struct *)
+  && N.eqb (rd_n_generics d) 0                                (* check_struct *)
+  && N.eqb (rd_n_fields d) 0
+  && match analyze d with Some _ => true | None => false end
+  && match parse_qargs (rd_qargs d) with DBad => false | _ => true end.
